@@ -26,6 +26,7 @@ type named struct {
 	name   string
 	route  *rux.Route
 	prefix string
+	idx    int
 }
 
 // genValue draws a value accepted by the variable's regex, over an alphabet with space, non-ASCII, % ? # { } and,
@@ -41,6 +42,12 @@ func genValue(t *rapid.T, v *model.Var, others []*model.Var) (string, string) {
 			}
 		}
 	}
+	if rapid.IntRange(0, 2).Draw(t, "collidingValue") == 0 {
+		// the literal first segment of other routes as a value: the lookup starts in their bucket
+		if cand := rapid.SampledFrom(sharedFirst).Draw(t, "collide"); full.MatchString(cand) {
+			return cand, "equals-a-first-segment-of-other-routes"
+		}
+	}
 	if rapid.IntRange(0, 1).Draw(t, "hostileAlphabet") == 0 {
 		val := rapid.StringMatching(`[a-c %?#{}é1+&=;:@.~-]{1,4}`).Draw(t, "hval")
 		if full.MatchString(val) {
@@ -49,6 +56,9 @@ func genValue(t *rapid.T, v *model.Var, others []*model.Var) (string, string) {
 	}
 	return model.GenValue(t, v), "plain"
 }
+
+// first segments shared by several routes; also offered as values
+var sharedFirst = []string{"en", "b"}
 
 func regexpFull(re string) (interface{ MatchString(string) bool }, error) {
 	return model.MustRe(`^(?:` + re + `)$`), nil
@@ -68,11 +78,27 @@ func prop(t *rapid.T) {
 	n := rapid.IntRange(1, 6).Draw(t, "nroutes")
 	var routes []*named
 	latest := map[string]*named{} // naming model: the route most recently registered under a name
+	table := &model.Table{Opts: model.Options{Strict: strict}}
 	for i := 0; i < n; i++ {
-		// a pattern without optional parts below a unique literal first segment (routes do not overlap)
+		// a pattern without optional parts.  Usually below a unique literal first segment (the routes do not overlap);
+		// otherwise as generated - it may begin with a variable and overlap with the other routes, or it sits below
+		// one of two shared first segments, which the values of leading variables collide with (see genValue).
+		// For overlapping routes the reference resolver says whether the built URL belongs to the named route.
 		p := model.GenPattern(t, model.GenCfg{MaxSegs: 3, MaxOpt: 1, RichLits: true})
 		p.Opt, p.TrailSlash = nil, false
-		p.Segs = append([]model.Part{{Pre: fmt.Sprintf("r%d", i)}}, p.Segs...)
+		shape := rapid.IntRange(0, 5).Draw(t, "shape")
+		if len(p.Segs) == 0 {
+			shape = 5 // the index route of a group keeps a trailing slash under StrictLastSlash (C11/C12's business)
+		}
+		switch shape {
+		case 0:
+			ev.Class("route:as-generated(may begin with a variable)")
+		case 1:
+			p.Segs = append([]model.Part{{Pre: rapid.SampledFrom(sharedFirst).Draw(t, "sharedFirst")}}, p.Segs...)
+			ev.Class("route:below-a-shared-first-segment")
+		default:
+			p.Segs = append([]model.Part{{Pre: fmt.Sprintf("r%d", i)}}, p.Segs...)
+		}
 		nr := &named{p: p, name: fmt.Sprintf("n%d", rapid.IntRange(0, 3).Draw(t, "name"))}
 		text := p.String()
 		reg := func() {
@@ -106,6 +132,8 @@ func prop(t *rapid.T) {
 		nr.full = nr.p.String()
 		latest[nr.name] = nr
 		routes = append(routes, nr)
+		table.Routes = append(table.Routes, model.RouteDef{P: nr.p, Methods: []string{"GET"}, Idx: i})
+		nr.idx = i
 		// an earlier route claims a name again through NamedTo - its own current name (which another route may have
 		// taken meanwhile) or a different one; from then on that name refers to it
 		if len(routes) >= 2 && rapid.IntRange(0, 3).Draw(t, "reclaim") == 0 {
@@ -238,6 +266,23 @@ func prop(t *rapid.T) {
 		reparsed, err := url.Parse(u.String())
 		if err != nil {
 			t.Fatalf("built URL does not parse: %v: %s", err, ctx)
+		}
+		// the route table may hold another route that takes this path first (C01's rules); the round trip is
+		// claimed for URLs that belong to the named route
+		dup := false
+		for _, o := range routes {
+			dup = dup || (o != nr && o.full == nr.full)
+		}
+		if dup {
+			// two registrations of one pattern: which of them serves the path is not this property's business
+			ev.Class("skipped:pattern-registered-twice")
+			continue
+		}
+		if res := table.Resolve("GET", built); res.Route != nr.idx {
+			ev.Class("skipped:built-path-belongs-to-another-route")
+			continue
+		} else if res.NMatch > 1 {
+			ev.Class("built-path-matched-by-several-routes,named-route-wins")
 		}
 		for _, path := range []string{u.Path, reparsed.Path} {
 			rt, ps, _ := r.Match("GET", path)
